@@ -79,6 +79,10 @@ def run(ctx):
         used = set(feyn) | set(i for x in nar for i in x["deps"]) | set(i for row in t["q_deps"] for dps in row for i in dps) \
             | set(i for row in t["k_deps"] for dps in row for i in dps) | set(t["u_deps"]) | set(t["v_deps"]) | set(t["jac_deps"]) \
             | set(i for dps in t["comparisons"] for i in dps)
+        # coordinates that ANY operation was applied to (also values that are computed and thrown away): exactly the first get_dimension() ones
+        if "touched" in t and set(t["touched"]) != set(range(dim)):
+            ctx.violation(f"operations were applied to coordinates {sorted(set(t['touched']) - set(range(dim)))} beyond get_dimension() = {dim} (or not to all below): "
+                          f"touched {sorted(t['touched'])}", req, expected=list(range(dim)), observed=sorted(t["touched"])); continue
         if used != set(range(dim)):
             ctx.violation(f"coordinates used by a sample are {sorted(used)}, expected exactly 0..{dim-1}", req, expected=list(range(dim)), observed=sorted(used)); continue
         # truncated points
